@@ -1,35 +1,51 @@
-"""C09 - the front end is total (DESIGN 5/C09): lexer + depth guards."""
-META = {"level": "proof", "trusted_base": [], "assumptions": [], "undecided_part": ""}
+"""C09 - the front end is total (DESIGN 5/C09): lexer (tokenize) + depth guards."""
+import os, re
+
+META = {
+    "level": "proof",
+    "trusted_base": [
+        "contracts/lexer_contracts.h (tokenize contract written from the property statement; assumed libc contracts)",
+        "contracts/loops/lexer.c.loops (loop invariants/variants: checked, not trusted; ghost statements: trusted to be side-effect free on program state)",
+    ],
+    "assumptions": [],
+    "undecided_part": "",
+}
+
 LEX = "harness/lexer_h.c"
 LANN = [("src/lexer.c", "contracts/loops/lexer.c.loops")]
-LREPL = ["malloc"]
-CHECKS_NOPRIM = ["--bounds-check", "--pointer-check", "--div-by-zero-check", "--signed-overflow-check",
-                 "--pointer-overflow-check", "--undefined-shift-check", "--conversion-check"]
+CASES = {0: "skip", 1: "char", 2: "string", 3: "number", 4: "ident", 5: "op2", 6: "other"}
+NULL_CASES = (1, 2)       # classes in which tokenize can return NULL
 
 
 def obligations(repo):
     obs = []
-    obs.append(dict(id="C09.lex.tokenize", prop="C09", harness=LEX, entry="h_tokenize", annotate=LANN,
-                    include_repo=["", "src"], enforce="tokenize", replace=LREPL, loops=True, unwind=12,
-                    strength="U", functions=["tokenize"], timeout=240,
-                    must_have=[r"tokenize\.postcondition", r"loop_invariant_step", r"decreases"], min_checks=200))
+    # tokenize, main-loop iteration split over the class of its first byte (X); every loop under a loop contract,
+    # length symbolic up to the driver's 10 MB limit
+    for k, nm in CASES.items():
+        d = {"LEX_CASE": k}
+        if k in NULL_CASES:
+            d["LEX_COVER_NULL"] = 1
+        obs.append(dict(id="C09.lex.tokenize." + nm, prop="C09", harness=LEX, entry="h_tokenize", annotate=LANN,
+                        include_repo=["", "src"], defines=d, enforce="tokenize", replace=["malloc"], loops=True,
+                        unwind=12, object_bits=9, backends=["cadical"], strength="X", functions=["tokenize"], timeout=900,
+                        weight=10,
+                        must_have=[r"tokenize\.postcondition", r"tokenize\.loop_invariant_step", r"tokenize\.loop_decreases",
+                                   r"tokenize\.loop_invariant_base", r"libc: realloc", r"libc: strncpy"], min_checks=2000))
+    obs.append(dict(id="C09.lex.cases", prop="C09", harness=LEX, entry="h_cases", include_repo=["", "src"],
+                    strength="U", functions=["tokenize(case split)"], must_have=[r"case split is exhaustive"], min_checks=1))
     DEP = "harness/depth_h.c"
-    obs.append(dict(id="C09.depth.check_expression", prop="C09", harness=DEP, entry="h_check_expression", defines={"DEPTH_TYPECHECKER": 1},
-                    enforce="check_expression", replace=["check_expression_impl"], unwind=6, strength="U", functions=["check_expression"],
-                    must_have=[r"check_expression\.postcondition", r"check_expression_impl\.precondition", r"C09\.depth limit constant"], min_checks=10, timeout=300))
-    obs.append(dict(id="C09.depth.check_statement", prop="C09", harness=DEP, entry="h_check_statement", defines={"DEPTH_TYPECHECKER": 1},
-                    enforce="check_statement", replace=["check_statement_impl"], unwind=6, strength="U", functions=["check_statement"],
-                    must_have=[r"check_statement\.postcondition", r"check_statement_impl\.precondition", r"C09\.depth limit constant"], min_checks=10, timeout=300))
-    import copy, os
-    if "CHK" in os.environ:
-        obs[0]["checks"] = os.environ["CHK"].split()
-    if os.environ.get("SC"):
-        obs[0]["annotate"] = [("src/lexer.c", os.environ["SC"])]
-    if "RP" in os.environ:
-        obs[0]["replace"] = os.environ["RP"].split()
-    if os.environ.get("GI"):
-        obs[0]["gi_flags"] = os.environ["GI"].split()
-    if os.environ.get("OB"):
-        obs[0]["object_bits"] = int(os.environ["OB"])
-    o2 = copy.deepcopy(obs[0]); o2["id"] = "C09.lex.dbg"; o2["defines"] = {"LEX_DEBUG_NOCOVER": 1}; obs.append(o2)
+    obs.append(dict(id="C09.depth.check_expression", prop="C09", harness=DEP, entry="h_check_expression",
+                    defines={"DEPTH_TYPECHECKER": 1}, enforce="check_expression", replace=["check_expression_impl"], unwind=6,
+                    strength="U", functions=["check_expression"],
+                    must_have=[r"check_expression\.postcondition", r"check_expression_impl\.precondition",
+                               r"C09\.depth limit constant"], min_checks=10, timeout=300))
+    obs.append(dict(id="C09.depth.check_statement", prop="C09", harness=DEP, entry="h_check_statement",
+                    defines={"DEPTH_TYPECHECKER": 1}, enforce="check_statement", replace=["check_statement_impl"], unwind=6,
+                    strength="U", functions=["check_statement"],
+                    must_have=[r"check_statement\.postcondition", r"check_statement_impl\.precondition",
+                               r"C09\.depth limit constant"], min_checks=10, timeout=300))
+    # experimentation hooks (not used by any tier)
+    for o in obs:
+        if "OB" in os.environ and o["id"].startswith("C09.lex.tokenize"):
+            o["object_bits"] = int(os.environ["OB"])
     return obs
